@@ -184,6 +184,20 @@ func valuesFollowSortedKeys(fn *ssa.Function, sortedKeysFns map[*ssa.Function]bo
 	return false, why
 }
 
+// sameHandle: the two values resolve to the same value, or to loads of the same field of the same base.
+func sameHandle(a, b an.FV) bool {
+	a, b = a.Resolve(nil), b.Resolve(nil)
+	if a.V == b.V {
+		return true
+	}
+	fa, ok1 := a.V.(*ssa.FieldAddr)
+	fb, ok2 := b.V.(*ssa.FieldAddr)
+	if !ok1 || !ok2 || !an.SameField(an.FieldOfAddr(fa), an.FieldOfAddr(fb)) {
+		return false
+	}
+	return (an.FV{V: fa.X, F: a.F}).Resolve(nil).V == (an.FV{V: fb.X, F: b.F}).Resolve(nil).V
+}
+
 func c16(c *core.Ctx, r *core.Report) {
 	r.Explanation = "Decides label and sample discipline structurally: (R1) for each SummaryVec the label names at construction and the label values at every WithLabelValues site agree position by position (test↔name, stage↔stage, result↔result.String()), the static suffixes both derive from the same sorted key list of the same map, and nothing re-orders the keys afterwards; " +
 		"(R2) exactly one setup observation on every path of Setup, labelled from T.Failed() read after the recovered setup call; (R3) Reset resets every vector, precedes Setup in Run.Do, and every observation resolves its series through the vector at observation time (no observer cached across Reset); " +
@@ -470,11 +484,11 @@ func c16(c *core.Ctx, r *core.Report) {
 	})
 
 	rule(r, "C16.R2", "the setup metric receives exactly one sample on every path of Setup (also when setup panics), labelled metrics.Result(T.Failed()) read after the recovered setup call", func() {
-		setup, _, frame := setupRunner(c)
+		setup, _, _ := setupRunner(c)
 		isRec := func(_ ssa.CallInstruction, t *ssa.Function) bool {
 			return isMethod(t, metricsPkg, "Metrics", "RecordSetupResult")
 		}
-		exits := an.PathCount(setup, an.CallWeight(isRec, 1))
+		exits := an.PathCount(setup, an.CallWeight(isRec, flatDepth))
 		tot, ok := an.Total(exits, false)
 		r.Check(ok && tot.Lo == 1 && tot.Hi == 1, core.FuncName(setup)+"#one-sample", c.Pos(setup.Pos()), "RecordSetupResult exactly once on every path", "RecordSetupResult executed "+tot.String()+" times per Setup")
 		// and Setup itself runs exactly once per run
@@ -482,22 +496,45 @@ func c16(c *core.Ctx, r *core.Report) {
 		dexits := an.PathCount(do, an.CallWeight(func(_ ssa.CallInstruction, t *ssa.Function) bool { return t == setup }, flatDepth))
 		dtot, dok := an.Total(dexits, false)
 		r.Check(dok && dtot.Lo == 1 && dtot.Hi == 1, core.FuncName(do)+"#setup-once", an.Pos(c, setupCall), "Setup (and with it the setup sample) runs exactly once per run", "Setup runs "+dtot.String()+" times per run: the setup metric holds more than one sample")
-		for _, call := range an.AllCalls(setup) {
-			if !isRec(call, an.Callee(call)) {
-				continue
-			}
+		// the label: metrics.Result(handle.Failed()) of the handle the setup function ran with, read after the frame that
+		// recovers and classifies a panicking setup has finished
+		_, bodyEv, _ := userRunner(c, "ScenarioFn", func(t *ssa.Function) bool { return isMethod(t, metricsPkg, "Metrics", "RecordSetupResult") })
+		classifiers := an.FlatCalls(setup, flatDepth, func(_ ssa.CallInstruction, t *ssa.Function) bool {
+			_, ok := recovering(t)
+			return ok
+		})
+		stopAtT := func(f *ssa.Function) bool { return core.RelPkg(f) != "internal/workers" }
+		for _, e := range an.FlatCalls(setup, flatDepth, isRec) {
+			call := e.Call()
 			if _, isDefer := call.(*ssa.Defer); isDefer {
 				r.Violation(core.FuncName(setup)+"#label", an.Pos(c, call), "the setup sample is deferred: its arguments are evaluated before setup ran")
 				continue
 			}
-			res := resultArg(call)
-			rc, ok := res.(*ssa.Call)
+			res := an.EventFV(e, resultArg(call)).Resolve(stopAtT)
+			rc, ok := res.V.(*ssa.Call)
 			okk := ok && an.IsFunc(an.Callee(rc), metricsPkg, "Result")
+			why := "it is not metrics.Result(handle.Failed())"
 			if okk {
-				fc, ok := an.Strip(rc.Call.Args[0]).(*ssa.Call)
-				okk = ok && isMethod(an.Callee(fc), testingPkg, "T", "Failed") && an.Dominates(frame, fc) && an.D().Of(fc.Call.Args[0]) == "$s.t"
+				fv := an.FV{V: rc.Call.Args[0], F: res.F}.Resolve(stopAtT)
+				fc, ok := fv.V.(*ssa.Call)
+				okk = ok && isMethod(an.Callee(fc), testingPkg, "T", "Failed")
+				if okk {
+					if !sameHandle(an.FV{V: fc.Call.Args[0], F: fv.F}, an.EventFV(bodyEv, bodyEv.Call().Common().Args[0])) {
+						okk, why = false, "the outcome is read from another handle than the one setup ran with"
+					}
+				}
+				if okk {
+					if len(classifiers) == 0 {
+						okk, why = false, "no recovering frame classifies a panicking setup"
+					}
+					for _, cl := range classifiers {
+						if !an.Before(cl, an.Event{Instr: fc, Frame: fv.F}) {
+							okk, why = false, "the outcome is read before the recovering frame has classified a panicking setup"
+						}
+					}
+				}
 			}
-			r.Check(okk, core.FuncName(setup)+"#label", an.Pos(c, call), "label = metrics.Result(s.t.Failed()) read after the recovered setup call", "the setup sample's result label is "+an.D().Of(res)+", not the setup handle's outcome read after setup ran")
+			r.Check(okk, core.FuncName(setup)+"#label", an.Pos(c, call), "label = metrics.Result(handle.Failed()) read after the recovered setup call", "the setup sample's result label is "+an.D().Of(resultArg(call))+": "+why)
 		}
 	})
 
